@@ -1,3 +1,316 @@
-/-! # C18 — property theorems (to be written) -/
+import BddVerif.Lemmas.Valuation
+import BddVerif.Lemmas.ValuationBdd
+import BddVerif.Lemmas.Cmp
+import BddVerif.Lemmas.CountSupport
+import BddVerif.Lemmas.C02Built
+/-!
+# C18 — valuation types and comparators obey their equality / ordering contracts
+
+Property theorems about `Model/Valuation.lean` (`B.Val`: partial / total valuations, `B.Cmp`: the five
+comparators of `_impl_sort.rs`).
+
+The observable of a partial valuation is `get` ("which variables are fixed to which value"); the vector
+behind it (`List (Option Bool)`, with the `None` padding that `unset_value` and `mut_cell` leave) is what
+the model computes on. Every statement below is about arbitrary vectors / arbitrary histories.
+-/
 namespace B.Props.C18
+open B B.Val B.Cmp B.Count
+
+/-! ## equality and hashing of partial valuations -/
+
+/-- `==` holds exactly when both valuations fix the same variables to the same values — whatever the
+    padding of the two vectors -/
+theorem pv_eq_iff (p q : PartialVal) : PartialVal.eq p q = true ↔ ∀ x, PartialVal.get p x = PartialVal.get q x :=
+  PartialVal.eq_iff p q
+
+/-- `==` is an equivalence relation -/
+theorem pv_eq_equivalence :
+    (∀ p, PartialVal.eq p p = true) ∧
+    (∀ p q, PartialVal.eq p q = PartialVal.eq q p) ∧
+    (∀ p q r, PartialVal.eq p q = true → PartialVal.eq q r = true → PartialVal.eq p r = true) := by
+  refine ⟨fun p => (pv_eq_iff p p).2 (fun _ => rfl), ?_, ?_⟩
+  · intro p q
+    rw [Bool.eq_iff_iff, pv_eq_iff, pv_eq_iff]
+    exact ⟨fun h x => (h x).symm, fun h x => (h x).symm⟩
+  · intro p q r h1 h2
+    rw [pv_eq_iff] at *
+    intro x; rw [h1 x, h2 x]
+
+/-- equal valuations feed the `Hasher` the very same sequence of writes (hence hash equally under any
+    `Hasher`), and different valuations feed it different sequences -/
+theorem pv_hash_congr (p q : PartialVal) :
+    PartialVal.eq p q = true ↔ PartialVal.hashWrites p = PartialVal.hashWrites q := by
+  rw [pv_eq_iff, PartialVal.hashWrites_eq_iff]
+
+/-- `to_values` lists exactly the fixed variables with their values -/
+theorem pv_to_values (p : PartialVal) (x : Nat) (b : Bool) :
+    (x, b) ∈ PartialVal.toValues p ↔ PartialVal.get p x = some b := PartialVal.mem_toValues p x b
+
+/-! ## histories of set / unset / index-assignment operations -/
+
+/-- one write: `set_value` (`c = some b`), `unset_value` (`c = none`), `p[x] = c` -/
+theorem pv_write (p : PartialVal) (x : Nat) (c : Option Bool) (y : Nat) :
+    PartialVal.get (PartialVal.setCell p x c) y = if y = x then c else PartialVal.get p y :=
+  PartialVal.get_setCell p x c y
+
+/-- after ANY history of writes a variable reads as the last value written to it, or as in the
+    starting valuation if it was never written: the vector's growth and padding are unobservable -/
+theorem pv_history (ops : List (Nat × Option Bool)) (p : PartialVal) (x : Nat) :
+    PartialVal.get (PartialVal.runOps ops p) x =
+      match PartialVal.lastWrite ops x with
+      | some c => c
+      | none => PartialVal.get p x := PartialVal.get_runOps ops p x
+
+/-- two histories (from the empty valuation) with the same last write per variable build equal
+    valuations with equal hash writes -/
+theorem pv_history_eq (ops1 ops2 : List (Nat × Option Bool))
+    (h : ∀ x, (PartialVal.lastWrite ops1 x).getD none = (PartialVal.lastWrite ops2 x).getD none) :
+    PartialVal.eq (PartialVal.runOps ops1 PartialVal.empty) (PartialVal.runOps ops2 PartialVal.empty) = true ∧
+    PartialVal.hashWrites (PartialVal.runOps ops1 PartialVal.empty) =
+      PartialVal.hashWrites (PartialVal.runOps ops2 PartialVal.empty) := by
+  have key : ∀ x, PartialVal.get (PartialVal.runOps ops1 PartialVal.empty) x =
+      PartialVal.get (PartialVal.runOps ops2 PartialVal.empty) x := by
+    intro x
+    rw [pv_history, pv_history]
+    have := h x
+    cases h1 : PartialVal.lastWrite ops1 x <;> cases h2 : PartialVal.lastWrite ops2 x <;>
+      simp_all [PartialVal.empty]
+  exact ⟨(pv_eq_iff _ _).2 key, (PartialVal.hashWrites_eq_iff _ _).2 key⟩
+
+/-- a history whose variable ids are `u16` never builds a vector of more than 65 536 cells -/
+theorem pv_history_length (ops : List (Nat × Option Bool)) (h : ∀ o ∈ ops, o.1 < 65536) :
+    (PartialVal.runOps ops PartialVal.empty).length ≤ 65536 :=
+  PartialVal.length_runOps ops _ _ (by simp [PartialVal.empty]) h
+
+/-- `from_values(&p.to_values())` is equal (`==`) to `p`: rebuilding drops the padding only -/
+theorem pv_rebuild (p : PartialVal) :
+    PartialVal.eq (PartialVal.fromValues (PartialVal.toValues p)) p = true := by
+  rw [pv_eq_iff]
+  intro x
+  rw [PartialVal.fromValues_eq_runOps, pv_history]
+  cases hl : PartialVal.lastWrite ((PartialVal.toValues p).map fun xb => (xb.1, some xb.2)) x with
+  | some c =>
+    simp only
+    have hm := PartialVal.lastWrite_some_mem _ _ _ hl
+    rw [List.mem_map] at hm
+    obtain ⟨⟨y, b⟩, hyb, heq⟩ := hm
+    simp only [Prod.mk.injEq] at heq
+    obtain ⟨rfl, rfl⟩ := heq
+    exact ((pv_to_values p y b).1 hyb).symm
+  | none =>
+    simp only
+    have hn := PartialVal.lastWrite_none _ _ hl
+    cases hg : PartialVal.get p x with
+    | none => simp [PartialVal.empty]
+    | some b =>
+      exfalso
+      have := (pv_to_values p x b).2 hg
+      exact hn (x, some b) (List.mem_map.2 ⟨(x, b), this, rfl⟩) rfl
+
+/-! ## conversions -/
+
+/-- total → partial → total returns the valuation (within the `u16` size limit of `BddValuation`;
+    beyond it `try_from` takes its explicit `Err` branch) -/
+theorem total_partial_roundtrip (v : TotalVal) :
+    PartialVal.toTotal (PartialVal.ofTotal v) = if v.length ≤ 65535 then some v else none :=
+  PartialVal.toTotal_ofTotal v
+
+/-- partial → total → partial returns the very same vector whenever the conversion succeeds, and it
+    succeeds exactly for vectors of at most 65 535 cells without an unset cell -/
+theorem partial_total_roundtrip (p : PartialVal) :
+    (∀ v, PartialVal.toTotal p = some v → PartialVal.ofTotal v = p) ∧
+    ((PartialVal.toTotal p).isSome = true ↔ p.length ≤ 65535 ∧ ∀ x, x < p.length → PartialVal.get p x ≠ none) :=
+  ⟨PartialVal.ofTotal_toTotal p, PartialVal.toTotal_isSome_iff p⟩
+
+/-- the converted valuation reads as the total one -/
+theorem of_total_get (v : TotalVal) (x : Nat) : PartialVal.get (PartialVal.ofTotal v) x = v[x]? :=
+  PartialVal.get_ofTotal v x
+
+/-- `Bdd::from(valuation)` is a reduced post-order array over `len` variables with one node per
+    variable, and it is satisfied by exactly the valuations that agree with `v` on all of them -/
+theorem valuation_bdd_spec (v : TotalVal) (hv : v.length ≤ 65535) :
+    Red (TotalVal.toBdd v) v.length ∧ Prefix (mkTrue v.length) (TotalVal.toBdd v) ∧
+    (TotalVal.toBdd v).size = v.length + 2 ∧
+    ∀ w : Nat → Bool, den (TotalVal.toBdd v) w = true ↔ ∀ i, i < v.length → w i = v.getD i false := by
+  have h := TotalVal.chainInv_toBdd v
+  have hn : TotalVal.numVars v = v.length := PartialVal.u16_of_lt (by omega)
+  rw [hn] at h
+  refine ⟨h.red, h.pre, by have := h.size; omega, ?_⟩
+  intro w
+  unfold den
+  rw [h.sem w]
+  exact ⟨fun h' i hi => h' i (Nat.zero_le _) hi, fun h' i _ hi => h' i hi⟩
+
+/-- the conversion to a Bdd loses nothing: different valuations give different Bdds -/
+theorem valuation_bdd_inj (v v' : TotalVal) (hv : v.length ≤ 65535) (hv' : v'.length ≤ 65535)
+    (h : TotalVal.toBdd v = TotalVal.toBdd v') : v = v' := by
+  obtain ⟨_, _, hs, hd⟩ := valuation_bdd_spec v hv
+  obtain ⟨_, _, hs', hd'⟩ := valuation_bdd_spec v' hv'
+  have hlen : v.length = v'.length := by rw [h] at hs; omega
+  have hself : den (TotalVal.toBdd v) (fun i => v.getD i false) = true := (hd _).2 (fun _ _ => rfl)
+  rw [h] at hself
+  have := (hd' _).1 hself
+  apply List.ext_getElem hlen
+  intro i h1 h2
+  have := this i h2
+  simp only [List.getD, List.getElem?_eq_getElem h1, List.getElem?_eq_getElem h2, Option.getD_some] at this
+  exact this
+
+/-- … and it has exactly one satisfying valuation according to the modelled `exact_cardinality` -/
+theorem valuation_bdd_card (v : TotalVal) (hv : v.length ≤ 65535) :
+    exactCardO (TotalVal.toBdd v) = .ok 1 := by
+  obtain ⟨hred, hpre, _, hd⟩ := valuation_bdd_spec v hv
+  have hw := B.C02.wfo_of_red hred hpre
+  rw [exactCardO_wfo hw]
+  congr 1
+  have hs := hred.size2
+  have hden : ∀ w, evW (TotalVal.toBdd v) v.length w (root (TotalVal.toBdd v)) = den (TotalVal.toBdd v) w :=
+    fun w => B.C02.evW_eq_ev hred hw w (root _) (root _) (by unfold root; omega) (Nat.le_refl _)
+  unfold cnt
+  apply cntV_single _ (fun i => v.getD i false) v.length
+  · intro w; rw [hden]; exact hd w
+  · omega
+  · intro i hi; omega
+
+/-! ## extends -/
+
+/-- `BddPartialValuation::extends` holds exactly when every value fixed in the argument is fixed to
+    the same value in `self` (for every vector `set_value`/`unset_value` can build: at most 65 536 cells) -/
+theorem extends_iff (s q : PartialVal) (hq : q.length ≤ 65536) :
+    PartialVal.extends_ s q = true ↔ ∀ x b, PartialVal.get q x = some b → PartialVal.get s x = some b :=
+  PartialVal.extends_iff s q hq
+
+/-- `BddValuation::extends` holds exactly when every variable of the total valuation that the partial
+    one fixes has that value -/
+theorem total_extends_iff (v : TotalVal) (q : PartialVal) (hv : v.length ≤ 65535) :
+    TotalVal.extends_ v q = true ↔
+      ∀ x b, x < v.length → PartialVal.get q x = some b → v.getD x false = b :=
+  TotalVal.extends_iff v q hv
+
+/-- for a partial valuation over the variables of the total one this is "all fixed values agree" -/
+theorem total_extends_iff_all (v : TotalVal) (q : PartialVal) (hv : v.length ≤ 65535)
+    (hq : ∀ x, PartialVal.get q x ≠ none → x < v.length) :
+    TotalVal.extends_ v q = true ↔ ∀ x b, PartialVal.get q x = some b → v.getD x false = b := by
+  rw [total_extends_iff v q hv]
+  exact ⟨fun h x b hx => h x b (hq x (by rw [hx]; simp)) hx, fun h x b _ hx => h x b hx⟩
+
+/-- the one-pass functions run by the driver are the literal loops of the Rust code -/
+theorem loops_agree (s q : PartialVal) (v : TotalVal) :
+    PartialVal.extends_ s q = PartialVal.extendsLoop s q ∧
+    PartialVal.toTotal q = PartialVal.toTotalLoop q ∧
+    TotalVal.extends_ v q = TotalVal.extendsLoop v q :=
+  ⟨PartialVal.extends_eq_loop s q, PartialVal.toTotal_eq_loop q, TotalVal.extends_eq_loop v q⟩
+
+/-! ## comparators -/
+
+/-- `cmp_structural` is a linear order on node vectors and its `Equal` is `==`:
+    `Equal` ⇔ same array; reversing the arguments reverses the result; `Less` is transitive
+    (totality is in the type: the result is always an `Ordering`) -/
+theorem cmp_structural_linear_order :
+    (∀ a b, cmpStructural a b = .eq ↔ a = b) ∧
+    (∀ a b, cmpStructural b a = (cmpStructural a b).swap) ∧
+    (∀ a b c, cmpStructural a b = .lt → cmpStructural b c = .lt → cmpStructural a c = .lt) :=
+  ⟨cmpStructural_eq_iff, cmpStructural_swap, cmpStructural_lt_trans⟩
+
+/-- hence `≤` (`≠ Greater`) is reflexive, transitive, antisymmetric and total -/
+theorem cmp_structural_le :
+    (∀ a, cmpStructural a a ≠ .gt) ∧
+    (∀ a b c, cmpStructural a b ≠ .gt → cmpStructural b c ≠ .gt → cmpStructural a c ≠ .gt) ∧
+    (∀ a b, cmpStructural a b ≠ .gt → cmpStructural b a ≠ .gt → a = b) ∧
+    (∀ a b, cmpStructural a b ≠ .gt ∨ cmpStructural b a ≠ .gt) := by
+  obtain ⟨heq, hswap, htrans⟩ := cmp_structural_linear_order
+  refine ⟨?_, ?_, ?_, ?_⟩
+  · intro a; rw [(heq a a).2 rfl]; simp
+  · intro a b c h1 h2
+    cases e1 : cmpStructural a b with
+    | gt => exact absurd e1 h1
+    | eq =>
+      have := (heq a b).1 e1; subst this; exact h2
+    | lt =>
+      cases e2 : cmpStructural b c with
+      | gt => exact absurd e2 h2
+      | eq => have := (heq b c).1 e2; subst this; rw [e1]; simp
+      | lt => rw [htrans a b c e1 e2]; simp
+  · intro a b h1 h2
+    cases e1 : cmpStructural a b with
+    | gt => exact absurd e1 h1
+    | eq => exact (heq a b).1 e1
+    | lt => rw [hswap a b, e1] at h2; exact absurd rfl h2
+  · intro a b
+    cases e1 : cmpStructural a b with
+    | gt => right; rw [hswap a b, e1]; simp [Ordering.swap]
+    | eq => left; simp
+    | lt => left; simp
+
+/-- `cmp_size` orders by the number of nodes (any two Bdds) -/
+theorem cmp_size_spec (a b : Arr) : cmpSize a b = compare a.size b.size := rfl
+
+/-- `cmp_cardinality` orders by the exact model count (any two diagrams, any variable counts), without panic -/
+theorem cmp_cardinality_spec {a b : Arr} {n m : Nat} (ha : WFo a n) (hb : WFo b m) :
+    cmpCardinality a b = .ok (compare (cnt n (fun v => evW a n v (root a))) (cnt m (fun v => evW b m v (root b)))) :=
+  cmpCardinality_wfo ha hb
+
+/-- `cmp_cardinality_strict`: `None` exactly for different variable counts, otherwise the order of
+    the exact model counts -/
+theorem cmp_cardinality_strict_spec {a b : Arr} {n m : Nat} (ha : WFo a n) (hb : WFo b m) :
+    cmpCardinalityStrict a b =
+      .ok (if n = m then some (compare (cnt n (fun v => evW a n v (root a))) (cnt m (fun v => evW b m v (root b))))
+           else none) := by
+  unfold cmpCardinalityStrict
+  rw [numVars_of_wf ha, numVars_of_wf hb]
+  split
+  · rw [cmpCardinality_wfo ha hb]; rfl
+  · rfl
+
+/-- `cmp_implies`: `None` for different variable counts; for equal counts `Equal`/`Less`/`Greater`
+    exactly by pointwise implication of the two functions, `None` when they are incomparable -/
+theorem cmp_implies_spec {a b : Arr} {n m : Nat} (ha : WFo a n) (hb : WFo b m) :
+    (n ≠ m → cmpImplies a b = none) ∧
+    (n = m →
+      let ab := ∀ v, evW a n v (root a) = true → evW b m v (root b) = true
+      let ba := ∀ v, evW b m v (root b) = true → evW a n v (root a) = true
+      (cmpImplies a b = some .eq ↔ ab ∧ ba) ∧ (cmpImplies a b = some .lt ↔ ab ∧ ¬ ba) ∧
+      (cmpImplies a b = some .gt ↔ ¬ ab ∧ ba) ∧ (cmpImplies a b = none ↔ ¬ ab ∧ ¬ ba)) := by
+  constructor
+  · intro hne
+    unfold cmpImplies
+    rw [numVars_of_wf ha, numVars_of_wf hb, if_neg hne]
+  · intro heq
+    subst heq
+    intro ab ba
+    have hab : impliesB a b = true ↔ ab := impliesB_iff ha hb
+    have hba : impliesB b a = true ↔ ba := impliesB_iff hb ha
+    unfold cmpImplies
+    rw [numVars_of_wf ha, numVars_of_wf hb, if_pos rfl]
+    simp only
+    cases h1 : impliesB a b <;> cases h2 : impliesB b a <;> simp_all
+
+/-! ## non-vacuity -/
+
+/-- two different histories over three variables (one leaves padding behind) with the same last
+    writes: equal, same hash writes, but only the tight one converts to a total valuation -/
+example :
+    let p := PartialVal.runOps [(0, some true), (2, some false), (2, none)] PartialVal.empty
+    let q := PartialVal.runOps [(1, some false), (0, some true), (1, none), (7, none)] PartialVal.empty
+    p = [some true, none, none] ∧ q.length = 8 ∧ PartialVal.eq p q = true ∧
+    PartialVal.hashWrites p = PartialVal.hashWrites q ∧
+    PartialVal.toTotal [some true] = some [true] ∧ PartialVal.toTotal p = none := by decide
+
+example : PartialVal.extends_ [some true, some false] [none, some false, none] = true ∧
+    PartialVal.extends_ [some true] [none, some false] = false := by decide
+
+/-- `Bdd::from` of `101`: hypotheses of `valuation_bdd_spec` hold, and the array is the chain -/
+example : TotalVal.toBdd [true, false, true] =
+    #[⟨3, 0, 0⟩, ⟨3, 1, 1⟩, ⟨2, 0, 1⟩, ⟨1, 2, 0⟩, ⟨0, 0, 3⟩] := by decide
+
+/-- comparators on concrete level-well-formed operands: `x0 ∧ x2 ⇒ x0` strictly -/
+example : cmpImplies exX0X2 exX0 = some .lt ∧ cmpStructural exX0X2 exX0 = .gt ∧ cmpSize exX0X2 exX0 = .gt := by
+  refine ⟨((cmp_implies_spec exX0X2_wf exX0_wf).2 rfl).2.1.2 ⟨?_, ?_⟩, by decide, by decide⟩
+  · intro v
+    simp only [evW, root, exX0X2, exX0, List.size_toArray, List.length_cons, List.length_nil]
+    cases h0 : v 0 <;> simp [evalF, h0, evalF_zero, evalF_one]
+  · intro h
+    have := h (fun i => i == 0)
+    simp [evW, evalF, exX0X2, exX0, root, evalF_zero, evalF_one] at this
+
 end B.Props.C18
